@@ -611,6 +611,8 @@ class _Ctx:
         if tgt.kind != 'pkg' or len(tgt.funcs) != 1 or tgt.via == 'ctor':
             return None
         callee = tgt.funcs[0]
+        if any(isinstance(y, (ast.Yield, ast.YieldFrom)) for b in callee.node.body for y in self._walk_own(b)):
+            return None         # a generator function: calling it runs nothing; its body runs in the loop that consumes it
         wanted = callee.qualname in self.opts.inline_full or \
             ('<private>' in self.opts.inline_full and callee.name.startswith('_') and not callee.name.startswith('__')
              and callee.parent is None)
@@ -1016,7 +1018,160 @@ class _Ctx:
             return False
         return not any(e.kind == 'store' and e.data.get('root') == it for e in st.events)
 
+    # ------------------------------------------------------------------ loops over package generators
+    def _generator_expansion(self, s: ast.For, st: State) -> Optional[List[ast.stmt]]:
+        """`for T in gen(args): BODY` with gen a generator function of the package: the generator's body with every
+        `yield e` replaced by `T = e; BODY` (parameters and locals renamed apart, arguments bound first).  Done only where the
+        two are the same computation: the generator is a (possibly empty) yield-free prelude followed by one loop and
+        nothing else - then leaving the for-loop (`break`) and stopping the generator (`return`) are both leaving that loop -
+        and, when BODY uses `continue`, nothing follows a `yield` within its iteration."""
+        if not isinstance(s.iter, ast.Call) or s.orelse:
+            return None
+        tgt = self.ti.resolve_call(s.iter, self.fn, self.types)
+        if tgt.kind != 'pkg' or len(tgt.funcs) != 1 or tgt.via == 'ctor':
+            return None
+        g = tgt.funcs[0]
+        gnode = g.node
+        own = [y for st_ in gnode.body for y in self._walk_own(st_)]
+        yields = [y for y in own if isinstance(y, (ast.Yield, ast.YieldFrom))]
+        if not yields or any(isinstance(y, ast.YieldFrom) for y in yields) or len(self.inline_stack) >= 3 or g.qualname in self.inline_stack:
+            return None
+        body = [b for b in gnode.body if not (isinstance(b, ast.Expr) and isinstance(b.value, ast.Constant))]      # docstring
+        if not body:
+            return None
+        prelude, loop = body[:-1], body[-1]
+        if not isinstance(loop, (ast.For, ast.While)) or loop.orelse:
+            return None
+        if any(isinstance(y, (ast.Yield, ast.Return)) for p_ in prelude for y in self._walk_own(p_)):
+            return None
+        # every yield is a statement `yield e`; `return` carries no value
+        for y in self._walk_own(loop):
+            if isinstance(y, ast.Return) and y.value is not None:
+                return None
+        ystmts = [y for y in self._walk_own(loop) if isinstance(y, ast.Expr) and isinstance(y.value, ast.Yield)]
+        if len(ystmts) != len(yields):
+            return None
+        body_has_continue = any(isinstance(y, ast.Continue) for b in s.body for y in self._walk_own(b, loops=False))
+        if body_has_continue and not self._yields_last(loop):
+            return None
+        # argument binding
+        call = s.iter
+        params = [a.arg for a in gnode.args.posonlyargs + gnode.args.args]
+        if gnode.args.vararg or gnode.args.kwarg or gnode.args.kwonlyargs:
+            return None
+        pre = f"_g{s.lineno}_"
+        binds = []
+        skip_self = g.cls is not None and not g.is_static and isinstance(call.func, ast.Attribute)
+        pos = list(call.args)
+        if any(isinstance(a, ast.Starred) for a in pos) or any(k.arg is None for k in call.keywords):
+            return None
+        import copy
+        if skip_self:
+            if not params:
+                return None
+            binds.append((params[0], copy.deepcopy(call.func.value)))
+            rest = params[1:]
+        else:
+            rest = params
+        if len(pos) > len(rest):
+            return None
+        for p_, a in zip(rest, pos):
+            binds.append((p_, copy.deepcopy(a)))
+        kws = {k.arg: k.value for k in call.keywords}
+        defaults = dict(zip(params[len(params) - len(gnode.args.defaults):], gnode.args.defaults))
+        for p_ in rest[len(pos):]:
+            if p_ in kws:
+                binds.append((p_, copy.deepcopy(kws[p_])))
+            elif p_ in defaults:
+                binds.append((p_, copy.deepcopy(defaults[p_])))
+            else:
+                return None
+        # rename the generator's parameters and locals apart from the caller's names
+        local = set(params)
+        for y in own:
+            if isinstance(y, ast.Name) and isinstance(y.ctx, (ast.Store, ast.Del)):
+                local.add(y.id)
+        ren = {n: pre + n for n in local}
+
+        target, fbody = s.target, s.body
+
+        class Rn(ast.NodeTransformer):
+            def visit_Name(self, n):
+                if n.id in ren:
+                    return ast.copy_location(ast.Name(id=ren[n.id], ctx=n.ctx), n)
+                return n
+
+            def visit_FunctionDef(self, n):
+                return n
+            visit_Lambda = visit_FunctionDef
+
+            def visit_Expr(self, n):
+                if isinstance(n.value, ast.Yield):
+                    val = self.visit(n.value.value) if n.value.value is not None else ast.Constant(value=None)
+                    asg = ast.Assign(targets=[copy.deepcopy(target)], value=val)
+                    ast.copy_location(asg, n)
+                    ast.fix_missing_locations(asg)
+                    return [asg] + list(fbody)
+                return self.generic_visit(n)
+
+            def visit_Return(self, n):
+                return ast.copy_location(ast.Break(), n)
+        new_body = []
+        for p_, a in binds:
+            asg = ast.Assign(targets=[ast.Name(id=ren[p_], ctx=ast.Store())], value=a)
+            ast.copy_location(asg, s)
+            ast.fix_missing_locations(asg)
+            new_body.append(asg)
+        rn = Rn()
+        for b in copy.deepcopy(prelude) + [copy.deepcopy(loop)]:
+            r = rn.visit(b)
+            new_body.extend(r if isinstance(r, list) else [r])
+        return new_body
+
+    @staticmethod
+    def _walk_own(node, loops=True):
+        """Nodes of a statement, not descending into nested function / class definitions (nor, with loops=False, into loops)."""
+        stack = [node]
+        while stack:
+            n = stack.pop()
+            yield n
+            for c in ast.iter_child_nodes(n):
+                if isinstance(c, (ast.FunctionDef, ast.AsyncFunctionDef, ast.ClassDef, ast.Lambda)):
+                    continue
+                if not loops and isinstance(c, (ast.For, ast.While)):
+                    continue
+                stack.append(c)
+
+    @classmethod
+    def _yields_last(cls, loop) -> bool:
+        """In every block of the loop body, a `yield` statement is the last statement executed in that iteration."""
+        def ok(block, tail: bool) -> bool:
+            for k, b in enumerate(block):
+                last = tail and k == len(block) - 1
+                if isinstance(b, ast.Expr) and isinstance(b.value, ast.Yield):
+                    if not last:
+                        return False
+                elif isinstance(b, ast.If):
+                    if not ok(b.body, last) or not ok(b.orelse, last):
+                        return False
+                elif any(isinstance(y, ast.Yield) for y in cls._walk_own(b)):
+                    return False
+            return True
+        return ok(loop.body, True)
+
     def st_For(self, s, st):
+        exp = getattr(s, '_gen_expansion', None)
+        if exp is None:
+            try:
+                exp = self._generator_expansion(s, st) or False
+            except Exception:
+                exp = False
+            try:
+                s._gen_expansion = exp
+            except Exception:
+                pass
+        if exp:
+            return self.block(exp, [st])
         it = self.ev(s.iter, st, stmt=s)
         lid = s.lineno
         if self._known_empty(it, st):
@@ -1603,8 +1758,8 @@ class _Ctx:
             return st.heap[path]
         # property getter of a package class: inline when it is a single return expression
         bt = self.ti.expr_type(e.value, self.fn, self.types)
-        if not bt and self.inline_stack:
-            # an untyped parameter of a helper walked inline: the type of the argument it is bound to in the caller's frame
+        if not bt:
+            # an untyped parameter of a helper walked inline / a renamed generator local: the type of the argument it is bound to in the caller's frame
             try:
                 bt = self.term_type(base)
             except Exception:
